@@ -287,9 +287,12 @@ func checkStep(m *rmodel, o rop, before int64, want []byte, wantEOF bool, s step
 		if s.eof && before != m.total() {
 			return "early-eof", fmt.Sprintf("Read(0) reported io.EOF at logical position %d of %d", before, m.total())
 		}
-		return "", ""
-	}
-	if s.eof != wantEOF {
+		if s.eof {
+			return "", ""
+		}
+		// a successful read of no bytes: LastChunk is the empty interval at
+		// the current position (checked below)
+	} else if s.eof != wantEOF {
 		if s.eof {
 			return "early-eof", fmt.Sprintf("%v at logical position %d (blocked=%v) reported io.EOF after %d bytes; %d were requested and available", o, before, m.blocked, len(s.data), len(want))
 		}
